@@ -39,6 +39,7 @@ fn main() {
                 drain: get("drain", "1") == "1",
                 crosscheck_every: get("crosscheck", "0").parse().unwrap(),
                 dual: get("dual", "0") == "1",
+                adaptive: get("adaptive", "0") == "1",
             };
             let mut rec = rec::Recorder::to_file(&out);
             hist::run(&cfg, &mut rec);
